@@ -489,6 +489,7 @@ def run_crashbin(out, binp, rng, hi):
     datadir = os.path.join(work, 'data')
     port = free_ports(1)[0]
     proc = None
+    hold = None
     try:
         out.write(f"run h={hi} setup=binary-crash backend=sql entry=http binary=1 days=14 versions=100 allow=none clients=\n")
         argv = ['--listen', f'127.0.0.1:{port}', '--data-dir', datadir]
@@ -496,6 +497,19 @@ def run_crashbin(out, binp, rng, hi):
         if not wait_ports(proc, [port]):
             out.write("# startup failed\n")
             return
+        # every second run: another process keeps a read transaction open on the database for the whole run (a backup
+        # tool, a second server instance): then no checkpoint can move the acknowledged commits out of the write-ahead
+        # log, and their durability rests on the log alone. The connection is closed only after the restart was judged
+        # (closing the last connection would checkpoint the log and repair what a faulty start-up lost).
+        hold = None
+        if hi % 2 == 1:
+            try:
+                http_req(port, 'GET', '/', [], b'')
+                import sqlite3
+                hold = sqlite3.connect(os.path.join(datadir, DBFILE), timeout=1, isolation_level=None)
+                hold.execute('BEGIN'); hold.execute('SELECT count(*) FROM clients').fetchall()
+            except Exception:
+                hold = None
         nthreads = 4 + rng.randrange(5)
         target = 20 + rng.randrange(60)
         clients = [str(uuid.UUID(int=rng.getrandbits(128), version=4)) for _ in range(nthreads)]
@@ -525,7 +539,7 @@ def run_crashbin(out, binp, rng, hi):
         for t in ths: t.join()
         with lock:
             got = list(acked)
-        out.write(f"# i=1 op=kill acked={len(got)} threads={nthreads} files={'|'.join(sorted(f + ':' + str(os.path.getsize(os.path.join(datadir, f))) for f in os.listdir(datadir)))}\n")
+        out.write(f"# i=1 op=kill acked={len(got)} held={int(hold is not None)} threads={nthreads} files={'|'.join(sorted(f + ':' + str(os.path.getsize(os.path.join(datadir, f))) for f in os.listdir(datadir)))}\n")
         proc = start(binp, argv, {}, quiet=True)
         ok = wait_ports(proc, [port])
         out.write(f"# i=2 op=restart\nrestart => {'ok' if ok else 'failed'}\n")
@@ -534,6 +548,10 @@ def run_crashbin(out, binp, rng, hi):
             for k, (c, parent, vid) in enumerate(got):
                 s.call(f"i={k + 3} op=ackcheck want={vid}", 'GET', f'/v1/client/get-child-version/{parent}', [('X-Client-Id', c)], kind='xhttp')
     finally:
+        try:
+            if hold is not None: hold.close()
+        except Exception:
+            pass
         if proc is not None and proc.poll() is None:
             proc.kill(); proc.wait()
         shutil.rmtree(work, ignore_errors=True)
